@@ -173,12 +173,18 @@ def scenarios(tier, seed):
         if g:
             out.append(dict(name="lib-%02d" % i, kind="lib", blocks=[list(b) for b in g], tier=tier, seed=seed * 1000 + i,
                             goff=(seed * 7 + i * 13) % p["gstep"]))
-    images = [os.path.basename(x) for x in sorted(glob.glob(os.path.join(env.REPO, "test", "spd_data", "*.csv")))]
+    images = [os.path.basename(x) for x in sorted(glob.glob(os.path.join(spd_dir(), "*.csv")))]
     k = min(p["spdgroups"], len(images))
     for i in range(k):
         g = images[i::k]
         out.append(dict(name="spd-%d-%s" % (i, g[0][:-4]), kind="spd", images=g, tier=tier, seed=seed))
     return out
+
+
+def spd_dir():
+    """SPD images are test data, not implementation: a scratch copy given by VERIF_REPO usually holds only litedram/."""
+    d = os.path.join(env.REPO, "test", "spd_data")
+    return d if os.path.isdir(d) else "/repo/test/spd_data"
 
 
 def load_spd_csv(path):
@@ -272,7 +278,7 @@ def _spd_records(sc, workdir):
     rnd = random.Random(sc["seed"])
     heads = []
     for image in sc["images"]:
-        base = load_spd_csv(os.path.join(env.REPO, "test", "spd_data", image))
+        base = load_spd_csv(os.path.join(spd_dir(), image))
         mt = {0x0b: "DDR3", 0x0c: "DDR4"}[base[2]]
         for vi, data in enumerate([base] + spd_variants(base, p["spdvar"], rnd)):
             for frm in (["1x", "2x", "4x"] if mt == "DDR4" else [None]):
@@ -365,7 +371,7 @@ def post(ctx, results, mresults):
             (seen.add(tuple(b)) if r.get("kind") == "lib" else None)
         if r.get("kind") == "spd":
             spd_images |= {b[0] for b in r.get("visited", []) if "#" not in b[0]}
-    nspd = len(glob.glob(os.path.join(env.REPO, "test", "spd_data", "*.csv")))
+    nspd = len(glob.glob(os.path.join(spd_dir(), "*.csv")))
     spd_seen = len(spd_images)
     cover = want <= seen and spd_seen == nspd
     return dict(exhaustive=bool(cover),
